@@ -298,11 +298,7 @@ mod cli {
             let is_hyphen = cli.input.first().unwrap() == "-";
 
             if is_single_item && is_hyphen && is_stdin_available {
-                Ok(stdin()
-                    .lock()
-                    .lines()
-                    .map(|line| line.unwrap())
-                    .collect_vec())
+                stdin().lock().lines().collect::<Result<Vec<_>, _>>()
             } else {
                 Ok(cli.input.clone())
             }
